@@ -125,7 +125,7 @@ func rangeHeaders(n int64) []string {
 			add("bytes=" + f + "-" + l)
 		}
 	}
-	for _, h := range []string{"bytes=", "bytes=1", "bytes=a-b", "bytes=1-2-3", "bytes=--1", "bytes=-", "bytes", "", "boats=0-1", "BYTES=0-1", "Bytes=0-1", "bytes=0-1,2-3", "bytes=0-0,-1", "bytes= 1 - 2 ", "bytes=1 -2", "bytes= -2", "bytes=1- ", "bytes=0x1-2", "bytes=1-2;q=1", "bytes=１-2", "bytes=+1-2", "bytes=1-+2", "bytes=+1-", "bytes=-+2", "bytes=0--0", "bytes=+0-+0", "bytes=-0", "bytes=0-0", "bytes=-00", "bytes=00-01", "bytes=1e0-2", " bytes=0-1", "bytes =0-1",
+	for _, h := range []string{"bytes=", "bytes=1", "bytes=a-b", "bytes=1-2-3", "bytes=--1", "bytes=-", "bytes", "", "boats=0-1", "BYTES=0-1", "Bytes=0-1", "bytes=0-1,2-3", "bytes=0-0,-1", "bytes= 1 - 2 ", "bytes=1 -2", "bytes= -2", "bytes=1- ", "bytes=0x1-2", "bytes=1-2;q=1", "bytes=１-2", "bytes=+1-2", "bytes=1-+2", "bytes=+1-", "bytes=-+2", "bytes=0--0", "bytes=+0-+0", "bytes=-0", "bytes=0-0", "bytes=-00", "bytes=00-01", "bytes=00000000000000000002-5", "bytes=2-00000000000000000005", "bytes=-00000000000000000003", "bytes=000000000000000000000000000001-000000000000000000000000000002", "bytes=1e0-2", " bytes=0-1", "bytes =0-1",
 		"bytes=0 1-0 2", "bytes=0 0-0 1", "bytes=0 1-", "bytes=-0 1", "bytes=0\t1-2", "bytes=1-0 2", "bytes=0-1 ,", "bytes=0-1, ",
 		"bytes=\u00a01-2", "bytes=1\u2003-2", "bytes=-\u30001", "bytes=0-1\u0085", "bytes=0-1,", "bytes=,0-1", "bytes=,", "bytes=0-1\nbytes=4-5", "bytes=0-1\ngarbage", "bytes=2-3\n1-1"} {
 		add(h)
